@@ -788,6 +788,12 @@ func (e *Env) call(x *ECall) TV {
 		return TV{T: "(" + fn + " " + v.T + ")", Ty: types.NewInterfaceType(nil, nil)}
 	case "strlen":
 		return TV{T: "(strlen " + arg(0).T + ")", Ty: types.Typ[types.Int]}
+	case "strat": // strat(s, i): the byte at index i
+		c.needStrSub()
+		return TV{T: "(strat " + arg(0).T + " " + arg(1).T + ")", Ty: types.Typ[types.Int]}
+	case "strsub": // strsub(s, i, j) == s[i:j]
+		c.needStrSub()
+		return TV{T: "(strsub " + arg(0).T + " " + arg(1).T + " " + arg(2).T + ")", Ty: types.Typ[types.String]}
 	case "recvd", "closed":
 		v := arg(0)
 		comp := c.comp(e.st, chanComp(c, name, v.Ty), "(Array Ref Bool)")
